@@ -593,6 +593,8 @@ func genObs(k string) string {
 		return "procedure_call_statements"
 	case k == "procedure-call-in-loop":
 		return "procedure_call_statements_inside_loops"
+	case k == "tail-procedure-call":
+		return "tail_procedure_call_statements"
 	case k == "lambda":
 		return "function_literals"
 	case k == "lambda-procedure":
